@@ -35,11 +35,11 @@ Qed.
 Definition user_cookies (h : list hstep) : list nat := q_cookies (fresh_with h).
 
 Lemma uapply_cookies r u : q_cookies (uapply r u) = match u with UAddCookie ck => q_cookies r ++ [ck] | _ => q_cookies r end.
-Proof. destruct u; reflexivity. Qed.
+Proof. destruct u; try reflexivity; simpl; destruct (rget k (q_form r)); reflexivity. Qed.
 Lemma uapply_merged r u : q_merged (uapply r u) = q_merged r.
-Proof. destruct u; reflexivity. Qed.
+Proof. destruct u; try reflexivity; simpl; destruct (rget k (q_form r)); reflexivity. Qed.
 Lemma uapply_attempt r u : q_attempt (uapply r u) = q_attempt r.
-Proof. destruct u; reflexivity. Qed.
+Proof. destruct u; try reflexivity; simpl; destruct (rget k (q_form r)); reflexivity. Qed.
 
 Definition ucookies (u : list nat) (x : uop) : list nat := match x with UAddCookie ck => u ++ [ck] | _ => u end.
 
@@ -65,6 +65,7 @@ Lemma attempt_cookies c r :
   m_cookies_at (q_merged (attempt c r)) = (match c_cookies c with [] => m_cookies_at (q_merged r) | _ => if q_attempt r =? 0 then length (q_cookies r) else m_cookies_at (q_merged r) end).
 Proof.
   unfold attempt. destruct (fold_left merge_header (c_headers c) (q_headers r, m_headers (q_merged r), q_next r)) as [[hs rec] nx].
+  match goal with |- context [let '(_, _) := ?x in _] => destruct x as [f' nx'] end.
   destruct (c_cookies c); simpl; auto; destruct (q_attempt r =? 0); auto.
 Qed.
 
